@@ -27,9 +27,17 @@ static inline u64 vf_cttz64(u64 a, u1 zp){ return a==0 ? 64 : (u64)__builtin_ctz
 static inline u32 vf_cttz32(u32 a, u1 zp){ return a==0 ? 32 : (u32)__builtin_ctz(a); }
 static inline u8 vf_ctlz8(u8 a, u1 zp){ u8 n=0; if(a==0) return 8; for(int i=7;i>=0;i--){ if((a>>i)&1) break; n++; } return n; }
 static inline u16 vf_ctlz16(u16 a, u1 zp){ u16 n=0; if(a==0) return 16; for(int i=15;i>=0;i--){ if((a>>i)&1) break; n++; } return n; }
-static inline void vf_memcpy(void*d,const void*s,u64 n){ memcpy(d,s,n); }
-static inline void vf_memmove(void*d,const void*s,u64 n){ memmove(d,s,n); }
-static inline void vf_memset(void*d,u8 c,u64 n){ memset(d,c,n); }
+/* constant-size block operations (aggregate copies): the built-in models are exact for a constant size */
+static inline void vf_memcpy_c(void*d,const void*s,u64 n){ memcpy(d,s,n); }
+static inline void vf_memmove_c(void*d,const void*s,u64 n){ memmove(d,s,n); }
+static inline void vf_memset_c(void*d,u8 c,u64 n){ memset(d,c,n); }
+/* symbolic-size block operations: cbmc 6.11's memcpy/memmove/memset models silently drop part of the write when the
+   size is symbolic (observed on heap arrays of structs), so these are explicit byte loops with ordinary unwind bounds
+   (match them in a spec with the regex 'vf_mem.*') */
+static inline void vf_memcpy(void*d,const void*s,u64 n){ u8*dd=(u8*)d; const u8*ss=(const u8*)s; for(u64 i=0;i<n;i++) dd[i]=ss[i]; }
+static inline void vf_memmove(void*d,const void*s,u64 n){ u8*dd=(u8*)d; const u8*ss=(const u8*)s;
+  if ((const u8*)dd <= ss) { for(u64 i=0;i<n;i++) dd[i]=ss[i]; } else { for(u64 i=n;i>0;i--) dd[i-1]=ss[i-1]; } }
+static inline void vf_memset(void*d,u8 c,u64 n){ u8*dd=(u8*)d; for(u64 i=0;i<n;i++) dd[i]=c; }
 static inline void vf_unreachable(void){
 #ifdef __CPROVER__
  __CPROVER_assert(0,"llvm unreachable reached");
